@@ -291,10 +291,10 @@ func genHazards(src, out string) {
 		}
 	}
 	sort.Slice(hz, func(i, j int) bool {
-		if hz[i].pkg != hz[j].pkg {
-			return hz[i].pkg < hz[j].pkg
-		}
-		return hz[i].line < hz[j].line
+		a, b := hz[i], hz[j]
+		ka := fmt.Sprintf("%s|%06d|%s|%s|%s", a.pkg, a.line, a.fn, a.kind, a.expr)
+		kb := fmt.Sprintf("%s|%06d|%s|%s|%s", b.pkg, b.line, b.fn, b.kind, b.expr)
+		return ka < kb
 	})
 	var b bytes.Buffer
 	b.WriteString("/- GENERATED by /verif/harness/cmd/vfacts from /repo/src — do not edit. -/\nnamespace CModel.Generated\n\n")
